@@ -556,6 +556,7 @@ func (c *channel) Context() context.Context {
 func (c *channel) serveChannel() {
 	signal := make(chan struct{})
 	defer func() { <-signal }()
+	defer c.vpWait("r.serve", signal)
 
 	c.executor.Exec(func() {
 		c.readLoop(func() {
